@@ -2,6 +2,7 @@ import WhVerif.Util.Proto
 import WhVerif.Model.C19
 import WhVerif.Model.C19Edit
 import WhVerif.Model.C19Word
+import WhVerif.Model.C19Heap
 import WhVerif.Spec.C19
 namespace WhVerif.Driver.C19
 open Lean WhVerif.Proto WhVerif.C19
@@ -46,7 +47,16 @@ def fromIndexJson (i p : Nat) : Json :=
   match Genotype.ofIndex i p with | .ok g => wordJson g | .error e => cerrJson e
 
 def handle (op : String) (j : Json) : Option Json :=
-  if op == "c19.fromindex" then
+  if op == "c19.heap" then
+    -- a history over several Genotype objects (alloc / deepcopy / restore / restoreFrom / deepcopy of a container, see
+    -- `Heap.step`): the observables [vector, index, ploidy] of every cell after every step
+    match (do natListList? (← j.getObjVal? "ops" |>.toOption) : Option (List (List Nat))) with
+    | some ops =>
+      some (Json.arr ((Heap.run [] ops).map (fun r => match r with
+        | .ok cells => ofList (fun (c : List Nat × Nat × Nat) => Json.arr #[ofNatList c.1, ofNat c.2.1, ofNat c.2.2]) cells
+        | .error e => errJson e)).toArray)
+    | none => some badInput
+  else if op == "c19.fromindex" then
     -- Genotype(uint64_t index, uint32_t ploidy)
     match getBig? j "index", getNat? j "ploidy" with
     | some i, some p => some (fromIndexJson (i % 18446744073709551616) p)
